@@ -47,6 +47,7 @@ var scanRules = map[string]scanRule{
 	"case-fold":        func(a *scandfa.Analysis) []*report.RuleResult { return []*report.RuleResult{a.CaseFold("php")} },
 	"trivia-stay":      func(a *scandfa.Analysis) []*report.RuleResult { return []*report.RuleResult{a.TriviaStay()} },
 	"trivia-siblings":  func(a *scandfa.Analysis) []*report.RuleResult { return []*report.RuleResult{a.TriviaSiblings()} },
+	"newline-symmetry": func(a *scandfa.Analysis) []*report.RuleResult { return []*report.RuleResult{a.NewlineSymmetry()} },
 	"idx-guard":        func(a *scandfa.Analysis) []*report.RuleResult { return []*report.RuleResult{a.IdxGuard()} },
 	"progress":         func(a *scandfa.Analysis) []*report.RuleResult { return []*report.RuleResult{a.Progress()} },
 }
@@ -123,7 +124,7 @@ func init() {
 	properties["SC"] = &Property{ // development aid: every scanner rule at once (not registered in the manifest)
 		Level: "other", Engine: "scandfa",
 		Run: func(c *Ctx) {
-			c.scanRun("token-rules", "newline-action", "newline-siblings", "case-fold", "trivia-stay", "trivia-siblings", "idx-guard", "progress")
+			c.scanRun("token-rules", "newline-action", "newline-siblings", "newline-symmetry", "case-fold", "trivia-stay", "trivia-siblings", "idx-guard", "progress")
 			c.ssaScan("pred-pure", "buf-readonly", "scanner-helpers")
 		},
 	}
@@ -162,7 +163,7 @@ func init() {
 	delete(notApplicable, "C08")
 	properties["C08"] = &Property{
 		Level:     "other",
-		LevelText: "Decided on the reconstructed transition system of the scanner, for every state: LF and CR are both accepted or both end the token, blank and tab likewise, and wherever a blank continues a token a line terminator does too (newline-siblings; the two places where PHP itself allows blanks only - inside casts and after <<< - are a reviewed pattern); recording whitespace or a comment as free-floating never changes the scanner state (trivia-stay); every machine that skips whitespace also skips comments (trivia-siblings); no grammar action or parser function makes a decision that reads free-floating tokens or positions (grammar-ignores-trivia). Not decided: token-pair interactions where trivia is part of a longer token (`yield from`, `?>` swallowing one newline, `;` whitespace `?>`), for all programs.",
+		LevelText: "Decided on the reconstructed transition system of the scanner, for every state: LF and CR are both accepted or both end the token, blank and tab likewise, and wherever a blank continues a token a line terminator does too (newline-siblings; the two places where PHP itself allows blanks only - inside casts and after <<< - are a reviewed pattern); in the hand-written helper predicates and actions every byte compared with one line terminator is compared with the other in the same way, or as a CR LF pair (newline-symmetry); recording whitespace or a comment as free-floating never changes the scanner state (trivia-stay); every machine that skips whitespace also skips comments (trivia-siblings); no grammar action or parser function makes a decision that reads free-floating tokens or positions (grammar-ignores-trivia). Not decided: token-pair interactions where trivia is part of a longer token (`yield from`, `?>` swallowing one newline, `;` whitespace `?>`), for all programs.",
 		LevelNote: "Four machines (property, halt_compiller_*) skip whitespace but not comments: known findings.",
 		Technique: "static analysis: per-state sibling comparison of byte classes on the reconstructed scanner automaton; symbolic interpretation of action blocks; typed-AST scan of parser conditions",
 		Engine:    "scandfa",
@@ -170,13 +171,14 @@ func init() {
 		TrustedBase: scanTrusted,
 		Floors: []report.Floor{
 			{Rule: "newline-siblings", What: "states", Min: 500},
+			{Rule: "newline-symmetry", What: "functions", Min: 4},
 			{Rule: "trivia-stay", What: "trivia-blocks", Min: 15},
 			{Rule: "trivia-siblings", What: "whitespace-skipping-machines", Min: 5},
 			{Rule: "grammar-ignores-trivia", What: "conditions", Min: 100},
 		},
 		Run: func(c *Ctx) {
 			defer c.cleanup()
-			c.scanRun("newline-siblings", "trivia-stay", "trivia-siblings")
+			c.scanRun("newline-siblings", "newline-symmetry", "trivia-stay", "trivia-siblings")
 			c.flowRule("grammar-ignores-trivia", flowRules["grammar-ignores-trivia"])
 		},
 	}
